@@ -348,6 +348,8 @@ static DIR_SEQ: AtomicU64 = AtomicU64::new(0);
 
 pub struct TempWs {
     pub dir: PathBuf,
+    /// the directory `dir` is a symbolic link to, when the workspace is reached through one
+    real: Option<PathBuf>,
 }
 
 impl TempWs {
@@ -356,7 +358,18 @@ impl TempWs {
         let dir = base.join(format!("vcheck-ws-{}-{}", std::process::id(), DIR_SEQ.fetch_add(1, Ordering::SeqCst)));
         let _ = std::fs::remove_dir_all(&dir);
         std::fs::create_dir_all(&dir).expect("scratch dir");
-        TempWs { dir }
+        TempWs { dir, real: None }
+    }
+    /// the same, but the path the client uses (`dir`) is a symbolic link to the directory that
+    /// holds the files (a checkout under a symlinked home or build tree)
+    pub fn new_symlinked() -> TempWs {
+        let mut t = TempWs::new();
+        let real = PathBuf::from(format!("{}.real", t.dir.display()));
+        let _ = std::fs::remove_dir_all(&real);
+        std::fs::rename(&t.dir, &real).expect("scratch dir");
+        std::os::unix::fs::symlink(&real, &t.dir).expect("scratch link");
+        t.real = Some(real);
+        t
     }
     pub fn path(&self, name: &str) -> PathBuf {
         self.dir.join(name)
@@ -384,7 +397,12 @@ impl TempWs {
 
 impl Drop for TempWs {
     fn drop(&mut self) {
-        let _ = std::fs::remove_dir_all(&self.dir);
+        if let Some(real) = &self.real {
+            let _ = std::fs::remove_file(&self.dir);
+            let _ = std::fs::remove_dir_all(real);
+        } else {
+            let _ = std::fs::remove_dir_all(&self.dir);
+        }
     }
 }
 
